@@ -76,8 +76,8 @@ LedgerStep(w, w1, call) ==
          [led EXCEPT !.radjN = @ + (w1.c.N - w.c.N), !.radjL = @ + (w1.c.L - w.c.L),
                      !.honest = @ /\ w1.c.N = w.c.N /\ w1.c.L = w.c.L]
     [] call.m = "withdraw" ->
-         [led EXCEPT !.paid = Add(@, call.b, Payout(w.c.batches[call.b].received, ReqAmt(w.c, call.b, call.s),
-                                                     w.c.batches[call.b].total)),
+         [led EXCEPT !.paid = Add(@, call.b, SafePayout(w.c.batches[call.b].received, ReqAmt(w.c, call.b, call.s),
+                                                         w.c.batches[call.b].total)),
                      !.wdl = Add(@, call.b, ReqAmt(w.c, call.b, call.s))]
     [] call.m = "recover" ->
          [led EXCEPT !.honest = @ /\ ~(call.has_sel /\ \E p \in w.c.pk : p.seq \in ToSet(call.sel) /\ p.status = "sent"),
